@@ -239,6 +239,37 @@ def coq_properties(prop):
     return {"theorems": thms, "closed": closed, "axioms": sorted(set(axioms)), "log": so}
 
 
+def coqchk(prop, timeout=2400):
+    """thorough tier: re-check the compiled property file and everything it depends on with the independent
+    checker; result cached per hash of the .vo closure (coqchk does not modify the .vo files)."""
+    files = [f[:-2] + ".vo" for f in coq_closure(["Properties/%s.v" % prop])]
+    h = hashlib.sha256()
+    for f in files:
+        h.update(f.encode())
+        h.update(open(os.path.join(COQ, f), "rb").read())
+    cache = os.path.join(BUILD, "coqchk_%s_%s.txt" % (prop, h.hexdigest()[:16]))
+    if os.path.exists(cache):
+        out = open(cache).read()
+    else:
+        rc, so, se = sh(["coqchk", "-silent", "-o", "-R", ".", "TX", "TX.Properties.%s" % prop], cwd=COQ, timeout=timeout)
+        out = so + se
+        if rc != 0:
+            raise Broken("coqchk TX.Properties.%s" % prop, out[-3000:])
+        with open(cache, "w") as fh:
+            fh.write(out)
+    m = re.search(r"\* Axioms:\s*(.*?)\n\s*\n", out, flags=re.S)
+    axioms = m.group(1).strip() if m else "?"
+    for tag in ("type-in-type", "unsafe (co)fixpoints", "positivity is assumed"):
+        mm = re.search(re.escape(tag) + r":\s*(.*?)\n", out)
+        if mm and mm.group(1).strip() != "<none>":
+            raise Broken("coqchk reports %s: %s" % (tag, mm.group(1)))
+    if axioms not in ("<none>",):
+        bad = [a for a in re.findall(r"^\s*(\S+)", axioms, flags=re.M) if a.split(".")[-1] not in ALLOWED_AXIOMS]
+        if bad:
+            raise Broken("coqchk reports axioms outside the trusted base: %s" % bad)
+    return {"coqchk_axioms": axioms, "coqchk_files": len(files)}
+
+
 def nlist(bs):
     """bytes -> Coq list N literal"""
     return "[" + ";".join(str(b) for b in bs) + "]"
@@ -381,6 +412,9 @@ TRUSTED_BASE = [
 
 def proof_coverage(ctx, pinfo, checker_cmd, extra_obligations=0):
     n = len(pinfo["theorems"]) + extra_obligations
+    if ctx.tier == "thorough":
+        ctx.coverage.update(coqchk(ctx.prop))
+        checker_cmd += " && coqchk -silent -o -R . TX TX.Properties.%s" % ctx.prop
     ctx.coverage.update({
         "obligations": n, "discharged": n,
         "checker_cmd": checker_cmd,
